@@ -643,18 +643,21 @@ fn parse_expr_unaryop(
                 }
                 ast::UnaryOp::PostfixIncrement => {
                     enforce_increment_type(expr_ty, op, base_location, context)?;
+                    // The result is a copy of the old value: an rvalue of the unqualified type
+                    let result_ty = context.module.type_registry.remove_modifier(expr_ty.0);
                     (
                         ir::IntrinsicOp::PostfixIncrement,
                         expr_ir,
-                        expr_ty.0.to_rvalue(),
+                        result_ty.to_rvalue(),
                     )
                 }
                 ast::UnaryOp::PostfixDecrement => {
                     enforce_increment_type(expr_ty, op, base_location, context)?;
+                    let result_ty = context.module.type_registry.remove_modifier(expr_ty.0);
                     (
                         ir::IntrinsicOp::PostfixDecrement,
                         expr_ir,
-                        expr_ty.0.to_rvalue(),
+                        result_ty.to_rvalue(),
                     )
                 }
                 ast::UnaryOp::Plus | ast::UnaryOp::Minus => {
